@@ -330,6 +330,21 @@ def check_add_edge(ctx, res: Result, cls: str):
                 _absent(res, v, "P-EMETA", norm(fed[0].node)[:80], "existing", f"the `{mpar}` argument reaches _edge_metadata only when the hyperedge is new: add_edge(<existing hyperedge>, metadata=...) silently keeps the old metadata (the four containers replace it)", _where(v, fed[0].node))
         else:
             res.unknown("P-EMETA", f, f"_edge_metadata[id] = {mpar}", "existing", "how the metadata argument reaches the metadata table was not established", _where(v, v.fi.node))
+    # ---- P-EMETA `replace`: metadata handed over for an existing record REPLACES the stored dict.  Updating the stored dict in place
+    # changes an object the container may share with whoever supplied it (the first insertion stores the caller's dict by
+    # reference; MultiplexHypergraph.aggregated_hypergraph hands its own per-record dicts to Hypergraph.add_edge)
+    for c_ in walk_no_nested(v.fi.node):
+        hit = None
+        if isinstance(c_, ast.Call) and isinstance(c_.func, ast.Attribute) and c_.func.attr in ("update", "setdefault", "pop", "clear") and isinstance(c_.func.value, ast.Subscript) and is_self_attr(c_.func.value.value, "_edge_metadata"):
+            hit = c_
+        if isinstance(c_, (ast.Assign, ast.AugAssign)):
+            for t_ in (c_.targets if isinstance(c_, ast.Assign) else [c_.target]):
+                if isinstance(t_, ast.Subscript) and isinstance(t_.value, ast.Subscript) and is_self_attr(t_.value.value, "_edge_metadata"):
+                    hit = c_
+        if isinstance(c_, ast.AugAssign) and isinstance(c_.op, ast.BitOr) and isinstance(c_.target, ast.Subscript) and is_self_attr(c_.target.value, "_edge_metadata"):
+            hit = c_
+        if hit is not None:
+            res.violation("P-EMETA", f, norm(hit)[:80], "replace", f"`{norm(hit)[:50]}` changes the STORED metadata dict in place: that dict is the very object a caller handed in on the first insertion (or another container's own record, as in aggregated_hypergraph), so re-inserting a hyperedge rewrites somebody else's data; the metadata of an existing record is replaced by assignment", _where(v, hit))
     # ---- P-ACCUM: weight writes outside the fresh branch are `+= weight` under the weighted flag
     wparam = "weight"
     outside = []
@@ -607,6 +622,82 @@ def check_remove_edge(ctx, res: Result, cls: str):
                     ik = v.kind(loop.iter)
                     good = isinstance(ik, (Seq, Lst)) and isinstance(ik.elem, Atom) and ik.elem.name == "NODE"
                     res.add("P-DEL", f, norm(loop.iter), tab + ":iter", "ok" if good else "unknown", "" if good else f"loop iterates over {ik!r}", _where(v, loop))
+
+
+def check_sides_kept(ctx, res: Result, rule="K-SIDES"):
+    """DirectedHypergraph.add_edge stores the source set and the target set AS GIVEN (canonicalised, nothing else): neither side is
+    filtered by membership in the other.  A node may legitimately sit on both sides (the directed configuration model swaps
+    sources among sources and targets among targets independently); dropping it from one side changes degrees and shapes."""
+    v = ctx.view("DirectedHypergraph.add_edge")
+    f = v.fi.short
+    n = 0
+    for c in walk_no_nested(v.fi.node):
+        gens = c.generators if isinstance(c, (ast.GeneratorExp, ast.ListComp, ast.SetComp)) else []
+        for g in gens:
+            for cond in g.ifs:
+                for cmp_ in ast.walk(cond):
+                    if isinstance(cmp_, ast.Compare) and len(cmp_.ops) == 1 and isinstance(cmp_.ops[0], (ast.NotIn, ast.In)) and isinstance(cmp_.comparators[0], ast.Name) and isinstance(g.iter, ast.Name) and cmp_.comparators[0].id != g.iter.id:
+                        a_, b_ = g.iter.id, cmp_.comparators[0].id
+                        if {a_, b_} <= {"source", "target", "src", "tgt", "sources", "targets", "head", "tail"}:
+                            n += 1
+                            res.violation(rule, f, norm(c)[:100], f"{a_} vs {b_}", f"`{a_}` is filtered by membership in `{b_}`: a node listed on both sides of a hyperedge is silently dropped from one of them, so the stored hyperedge is not the one that was handed in (its shape, and the node's in- / out-degree, change)", _where(v, c))
+        if isinstance(c, ast.BinOp) and isinstance(c.op, (ast.Sub, ast.BitXor)):
+            names = [x.id for x in ast.walk(c) if isinstance(x, ast.Name)]
+            if {"source", "target"} <= set(names) and any(isinstance(x, ast.Call) and isinstance(x.func, ast.Name) and x.func.id in ("set", "frozenset") for x in ast.walk(c)):
+                n += 1
+                res.violation(rule, f, norm(c)[:100], "source vs target", "one side of the hyperedge is reduced by the members of the other (set difference): a node on both sides is dropped from one of them", _where(v, c))
+    if n == 0:
+        res.ok(rule, f, "neither side is filtered by the other", "scan", _where(v, v.fi.node))
+
+
+def _planner_guard(ctx, v: FuncView, node) -> bool:
+    """`node` stands under an `if` whose test reads a local that was assigned from a call of a REPOSITORY function (a planner that
+    returns a verdict / an action tag), possibly by tuple unpacking"""
+    for iff in v.enclosing_all(node, (ast.If,)):
+        for x in ast.walk(iff.test):
+            r = x
+            while isinstance(r, ast.Attribute):
+                r = r.value
+            if not isinstance(r, ast.Name) or r.id == "self":
+                continue
+            for a in walk_no_nested(v.fi.node):
+                if isinstance(a, ast.Assign) and isinstance(a.value, ast.Call) and any(isinstance(n_, ast.Name) and n_.id == r.id for t in a.targets for n_ in ([t] if isinstance(t, ast.Name) else t.elts if isinstance(t, (ast.Tuple, ast.List)) else [])):
+                    if ctx.callees(v.fi, a.value):
+                        return True
+    return False
+
+
+def check_weight_accumulation_guarded(ctx, res: Result, cls: str, rule="P-ACCUM"):
+    """Wherever a record's weight is ADDED to (`self._weights[id] += w`) - add_edge on an existing key, a hand-written merge in
+    remove_node(keep_edges=True) - the hypergraph must be weighted: in an unweighted one every weight stays 1 (re-insertion is
+    idempotent).  The accumulation stands under a test of the weightedness flag."""
+    n = 0
+    for name, fi in sorted(ctx.methods(cls).items()):
+        v = ctx.view(fi)
+        for o in [o for o in v.ops() if o.table == "_weights" and o.op == "aug" and not o.elem_level and not o.may]:
+            if not isinstance(getattr(o.node, "op", None), ast.Add):
+                continue
+            n += 1
+            oid = _cfgid(v, o.at)
+            guarded = False
+            for iff in walk_no_nested(fi.node):
+                if not isinstance(iff, (ast.If, ast.IfExp)):
+                    continue
+                t_i = v.inline(iff.test, depth=2)
+                about = any((isinstance(x, ast.Attribute) and x.attr in ("_weighted",)) or (isinstance(x, ast.Call) and isinstance(x.func, ast.Attribute) and x.func.attr == "is_weighted") or (isinstance(x, ast.Name) and "weighted" in x.id) for x in ast.walk(t_i))
+                tid = v.cfg.by_ast.get(id(iff.test))
+                if about and tid is not None and any(v.cfg.branch_dominated(tid, lab, oid) for lab in ("T", "F")):
+                    guarded = True
+            if guarded:
+                res.ok(rule, fi.short, norm(o.node), "weighted-only:" + name, _where(v, o.node))
+            elif _planner_guard(ctx, v, o.node):
+                res.unknown(rule, fi.short, norm(o.node), "weighted-only:" + name, "the accumulation stands on a branch chosen by a value another function computed (a planner that was handed the weightedness flag)", _where(v, o.node))
+            elif name.startswith("_") and not name.startswith("__"):
+                res.unknown(rule, fi.short, norm(o.node), "weighted-only:" + name, "a private helper accumulates a weight without testing the weightedness flag itself; whether its callers do was not established", _where(v, o.node))
+            else:
+                res.violation(rule, fi.short, norm(o.node), "weighted-only:" + name, f"`{norm(o.node)[:50]}` adds to the weight of an existing record without a test of the weightedness flag: in an UNWEIGHTED hypergraph the merged hyperedge ends up with weight 2, 3, ... instead of 1 (add_edge, which the other paths go through, only accumulates when weighted)", _where(v, o.node))
+    if n == 0:
+        res.ok(rule, cls, "no hand-written weight accumulation", "weighted-only", "")
 
 
 def check_id_monotone(ctx, res: Result, cls: str, rule="P-IDMONO"):
@@ -1464,6 +1555,51 @@ def check_memo_keys(ctx, res: Result, cls: str, rule="K-MEMOKEY"):
                 res.violation(rule, fi.short, norm(n)[:120], f"{attr}:component{bad[0]}", f"self.{attr} is filled under keys whose component {bad[0]} is {'/'.join(bad[2])}; here it is addressed with {'/'.join(bad[1])}: the entry meant is another one (a stale entry stays, or a lookup never hits)", loc(fi, n))
             else:
                 res.ok(rule, fi.short, norm(n)[:120], f"{attr}:units", loc(fi, n))
+    # ---- a memo keyed by `order` is consulted only AFTER `size` has been folded into `order`: before `order = size - 1` a call
+    # with size=k still has order None, i.e. the key under which the UNFILTERED answer is filed
+    for fi in methods.values():
+        pn = {a.arg for a in fi.params} | {a.arg for a in fi.node.args.kwonlyargs}
+        if not {"order", "size"} <= pn:
+            continue
+        v = ctx.view(fi)
+        convs = [a for a in walk_no_nested(fi.node) if isinstance(a, ast.Assign) and any(isinstance(t, ast.Name) and t.id == "order" for t in a.targets) and any(isinstance(x, ast.Name) and x.id == "size" for x in ast.walk(a.value))]
+        if not convs:
+            continue
+
+        def memo_container(e):
+            """a private non-table dict attribute of self, or a local taken out of one (`cached = self._memo.setdefault(node, {})`)"""
+            if is_self_attr(e) and e.attr.startswith("_") and v.table_of(e) is None:
+                return e.attr
+            if isinstance(e, ast.Name):
+                ds = [a.value for a in walk_no_nested(fi.node) if isinstance(a, ast.Assign) and len(a.targets) == 1 and isinstance(a.targets[0], ast.Name) and a.targets[0].id == e.id]
+                r = ds[0] if len(ds) == 1 else None
+                if isinstance(r, ast.Call) and isinstance(r.func, ast.Attribute) and r.func.attr in ("setdefault", "get") and is_self_attr(r.func.value) and r.func.value.attr.startswith("_") and v.table_of(r.func.value) is None:
+                    return r.func.value.attr
+                if isinstance(r, ast.Subscript) and is_self_attr(r.value) and r.value.attr.startswith("_") and v.table_of(r.value) is None:
+                    return r.value.attr
+            return None
+
+        for n in walk_no_nested(fi.node):
+            cont = key = None
+            if isinstance(n, ast.Compare) and len(n.ops) == 1 and isinstance(n.ops[0], (ast.In, ast.NotIn)):
+                cont, key = n.comparators[0], n.left
+            elif isinstance(n, ast.Subscript) and isinstance(n.ctx, ast.Load):
+                cont, key = n.value, n.slice
+            elif isinstance(n, ast.Call) and isinstance(n.func, ast.Attribute) and n.func.attr == "get" and n.args:
+                cont, key = n.func.value, n.args[0]
+            if cont is None:
+                continue
+            knames = {x.id for x in ast.walk(key) if isinstance(x, ast.Name)}
+            if "order" not in knames or "size" in knames:
+                continue
+            attr = memo_container(cont)
+            if attr is None:
+                continue
+            nid = v.cfg_id(n)
+            early = [c_ for c_ in convs if nid is not None and v.cfg_id(c_) is not None and v.cfg.reachable(nid, v.cfg_id(c_)) and not v.cfg.dominates(v.cfg_id(c_), nid)]
+            if early:
+                n_checked += 1
+                res.violation(rule, fi.short, norm(n)[:100], f"{attr}:before-normalisation", f"self.{attr} is consulted under the key `{norm(key)}` BEFORE `{norm(early[0])}` has folded the size filter into the order: a call with size=k looks up order None - the entry of the unfiltered query - and returns the unfiltered answer", loc(fi, n))
     if n_checked == 0:
         res.ok(rule, cls, "no keyed cache on the object", "scan", ctx.prog.cls(cls).module.relpath)
 
